@@ -895,6 +895,20 @@ def multiset_sub(a: T.List[str], b: T.List[str]) -> T.List[str]:
     return out
 
 
+def is_degenerate(tree) -> bool:
+    """the parser accepts a missing operand / argument / condition as an EmptyNode (`a or`, `()`, `x[]`,
+    `{'k': }`, `a ? : b`): such programs cannot be evaluated and are outside the validated domain.
+    (The EmptyNode standing for an absent `else` is the only regular one.)"""
+    def walk(n, parent_kind: str, idx: int, nkids: int) -> bool:
+        if isinstance(n, tuple):
+            return n[0] == 'Kw' and any(walk(k, 'Kw', i, 3) for i, k in enumerate(n[1]))
+        kind, _t, _f, kids = node_parts(n)
+        if kind == 'Empty':
+            return not (parent_kind == 'IfClause' and idx == nkids - 2)
+        return any(walk(k, kind, i, len(kids)) for i, k in enumerate(kids))
+    return walk(tree, '', 0, 0)
+
+
 def run_pair(text: str, cfgdir: str, cfgid: int, cfg: T.Dict[str, T.Any], want_ser: bool = True) -> T.Dict[str, T.Any]:
     """format `text`; evaluate the Python oracle; returns a result record (picklable).
     Violation keys name the root cause where a counterfactual re-run (one option switched off) or the
@@ -909,6 +923,9 @@ def run_pair(text: str, cfgdir: str, cfgid: int, cfg: T.Dict[str, T.Any], want_s
         return res
     except Exception as e:  # parser internal errors are C02's subject
         res['status'] = 'input-parser-error:' + type(e).__name__
+        return res
+    if is_degenerate(tin):
+        res['status'] = 'input-degenerate'
         return res
     try:
         fm = formatter_for(cfgdir, cfgid)
@@ -1217,20 +1234,76 @@ def shrink(text: str, cfg: T.Dict[str, T.Any], key: str, cfgdir: str, budget: in
             budget -= 1
             if holds(text, c2):
                 cfg = c2
-    n = max(1, len(text) // 2)
-    while n >= 1 and budget > 0:
-        i = 0
-        progressed = False
-        while i < len(text) and budget > 0:
-            cand = text[:i] + text[i + n:]
-            budget -= 1
-            if cand != text and holds(cand, cfg):
-                text = cand
-                progressed = True
-            else:
-                i += n
-        if not progressed or n == 1:
-            n //= 2
+    state = {'budget': budget}
+
+    def test(cand: str) -> bool:
+        if state['budget'] <= 0 or cand == text:
+            return False
+        state['budget'] -= 1
+        return holds(cand, cfg)
+
+    def ddmin_units(units: T.List[str]) -> T.List[str]:
+        n = max(1, len(units) // 2)
+        while n >= 1 and state['budget'] > 0:
+            i = 0
+            progressed = False
+            while i < len(units) and state['budget'] > 0:
+                cand = units[:i] + units[i + n:]
+                if len(cand) < len(units) and test(''.join(cand)):
+                    units = cand
+                    progressed = True
+                else:
+                    i += n
+            if not progressed or n == 1:
+                n //= 2
+        return units
+
+    def groups(t: str) -> T.List[T.Tuple[int, int]]:
+        """(open, close) index pairs of balanced brackets outside strings and comments (approximate)"""
+        out, stack, i, q = [], [], 0, None
+        while i < len(t):
+            c = t[i]
+            if t.startswith("'''", i):
+                j = t.find("'''", i + 3)
+                i = (j + 3) if j >= 0 else len(t)
+                continue
+            if c == "'":
+                j = i + 1
+                while j < len(t) and t[j] != "'":
+                    j += 2 if t[j] == '\\' else 1
+                i = j + 1
+                continue
+            if c == '#':
+                j = t.find('\n', i)
+                i = j if j >= 0 else len(t)
+                continue
+            if c in '([{':
+                stack.append(i)
+            elif c in ')]}' and stack:
+                out.append((stack.pop(), i))
+            i += 1
+        return sorted(out, key=lambda g: g[0] - g[1])   # largest first
+
+    for _round in range(6):
+        before = text
+        # 1. whole lines
+        text = ''.join(ddmin_units(text.splitlines(keepends=True)))
+        # 2. bracketed groups: drop the content, the whole group, or only the brackets
+        changed = True
+        while changed and state['budget'] > 0:
+            changed = False
+            for a, b in groups(text):
+                for cand in (text[:a + 1] + text[b:], text[:a] + text[b + 1:], text[:a] + text[a + 1:b] + text[b + 1:]):
+                    if len(cand) < len(text) and test(cand):
+                        text = cand
+                        changed = True
+                        break
+                if changed:
+                    break
+        # 3. characters
+        text = ''.join(ddmin_units(list(text)))
+        if text == before or state['budget'] <= 0:
+            break
     return text, cfg
 
 
@@ -1361,6 +1434,7 @@ TARGETED: T.List[T.Tuple[str, T.Dict[str, T.Any]]] = [
     ("x = f([ \\\n 'b'])\n", {}),                                 # idempotence:continuation-after-bracket
     ("files(['a'] \\\n)\n", {}), ("files([ \\\n 'a'])\n", {}), ("files(['a'], \\\n)\n", {}),   # regression of 194f0bf
     ("files(['b', 'a'], # c\n)\n", {'sort_files': True}), ("files([['b'], 'a'])\n", {'sort_files': True}),
+    ("files([#\n]).d()\n", {'max_line_length': 20}), ("x = files([ # c\n]) + files([\n])\n", {'max_line_length': 20}),   # regression of 2163d30
 ]
 
 
@@ -1428,7 +1502,7 @@ def decision_cases(rng: random.Random, n: int) -> T.Tuple[T.List[T.Tuple[str, bo
     flats = ["files(['a', 'b'])", "files([ 'a' ])", "files([ # c\n 'a'])", "files(['a'], 'b')", "files(['a'], k: 1)", "files()", "files([])",
              "files([['a']])", "files(['a', k: 1])", "filez(['a'])", "files( # c\n['a'])", "files(['a'] # c\n)", "files(x)", "files([\n'a'])",
              "files(['a',],)", "files([\\\n 'a'])", "files([[['a']]])", "files([['a'] # c\n])", "files(['a'], # c\n)", "files(['a'] \\\n)",
-             "files([['a'], 'b'])", "files([['a', k: 1]])", "files(['a'],\n)"]
+             "files([['a'], 'b'])", "files([['a', k: 1]])", "files(['a'],\n)", "files([ # c\n])", "files([[ # c\n]])", "files([\n])"]
     for _ in range(n // 8):
         toks = g.call(1)
         if toks[0] == 'files':
@@ -1570,6 +1644,9 @@ def run(ctx: Ctx) -> None:
     ctx.assumptions += [
         'inputs are ASCII plus the inert code points é € 中; no \\N{..} escapes, no surrogate or >U+10FFFF escapes',
         'unparseable inputs are outside the property and skipped (counted); parser internal errors are C02\'s subject',
+        'inputs in which the parser accepted a missing operand / argument / condition as an EmptyNode (`a or`, `()`, `x[]`, '
+        '`{k: }`, `a ? : b`; the absent `else` excepted) cannot be evaluated and are outside the validated domain '
+        '(status input-degenerate, counted); minimisation stays inside the domain',
         'f-string denotation taken from InterpreterBase.evaluate_fstring: substitution sites are matches of @ident@',
         'nesting depth of generated programs <= 7 (RecursionError is a runtime limit)',
     ]
@@ -1613,7 +1690,7 @@ def process(ctx: Ctx, results: T.List[T.Dict[str, T.Any]], cfgs: T.List[T.Dict[s
         ctx.tag('status:' + r['status'])
         ctx.tag('origin:' + r['origin'])
         cfg = cfgs[r['cfgid']]
-        if r['status'] in ('input-unparseable', 'recursion') or r['status'].startswith('input-parser-error'):
+        if r['status'] in ('input-unparseable', 'input-degenerate', 'recursion') or r['status'].startswith('input-parser-error'):
             continue
         programs += 1
         for k, v in nondefault(cfg).items():
@@ -1652,7 +1729,7 @@ def process(ctx: Ctx, results: T.List[T.Dict[str, T.Any]], cfgs: T.List[T.Dict[s
                 new_found = True
                 break
             try:
-                t2, c2, v2 = minimise_and_rekey(text, cfgs[ci], what, cfgdir, budget=ctx.scale(500, 1500))
+                t2, c2, v2 = minimise_and_rekey(text, cfgs[ci], what, cfgdir, budget=ctx.scale(1500, 6000))
             except Exception as e:
                 t2, c2, v2 = text, cfgs[ci], [(key, what + f' (minimisation failed: {type(e).__name__})')]
             for k2, w2 in v2:
